@@ -1,1 +1,3 @@
+import UmapProps.C01
 import UmapProps.C02
+import UmapProps.C19
